@@ -1,19 +1,593 @@
-//! Engine `alloc` (see /verif/DESIGN.md section 5). Entry points used by main.rs.
+//! Engine `alloc` (see /verif/DESIGN.md section 5): seeded grant/release/probe histories on the
+//! real worker resource allocator (`tako::verif::SimAllocator` = ResourceAllocator + pools +
+//! concise mirror + group_solver/HiGHS), checked at every step against
+//!   * C04 "worker resources are exclusive and conserved" (recomputed from the pool snapshot and
+//!     the set of live allocations), and
+//!   * C16 "allocation policies mean what the documentation says; no spurious refusals"
+//!     (brute-force reference over group subsets on the pre-grant free state).
+//! Entry points used by main.rs: `PROPERTIES`, `check`, `replay`.
 
-use crate::batch::CheckArgs;
-use std::path::Path;
+mod exec;
+mod reference;
+mod shrink;
+mod spec;
+
+use std::collections::{BTreeMap, BTreeSet};
+use std::path::{Path, PathBuf};
+use std::sync::atomic::{AtomicBool, AtomicU64, Ordering};
+use std::time::Instant;
+
+use serde::{Deserialize, Serialize};
+
+use crate::batch::{CheckArgs, load_known_findings, write_json};
+use crate::sim::rng::{Rng, mix};
+use exec::{Finding, Runner};
+use spec::*;
 
 /// Property ids this engine decides
-pub const PROPERTIES: &[&str] = &[];
+pub const PROPERTIES: &[&str] = &["C16", "C04"];
 
-/// Runs the check of `args.property`; returns the process exit code (0 / 1 / 2).
-pub fn check(_args: &CheckArgs) -> i32 {
-    eprintln!("engine alloc: not implemented yet");
-    2
+const ENGINE_TAG: u64 = 4;
+const QUICK_RUNS: u64 = 24_000;
+const THOROUGH_FACTOR: u64 = 25;
+const SHRINK_TRIES: u64 = 4_000;
+/// a single run needs milliseconds; this is the alarm for an endless loop in the allocator
+const RUN_TIMEOUT_S: u64 = 120;
+
+fn property_tag(p: &str) -> u64 {
+    p.bytes().fold(0u64, |a, b| a * 131 + b as u64)
 }
 
+pub fn run_seed_for(verif_seed: u64, property: &str, index: u64) -> u64 {
+    mix(&[verif_seed, ENGINE_TAG, property_tag(property), index])
+}
+
+/* ---------------------------------------------------------------------------------------- */
+/* One run                                                                                  */
+/* ---------------------------------------------------------------------------------------- */
+
+pub struct RunResult {
+    pub desc: Desc,
+    pub ops: Vec<Op>,
+    pub findings: Vec<Finding>,
+    pub counters: BTreeMap<String, u64>,
+    pub state_shapes: BTreeSet<u64>,
+    pub decisions_nontrivial: BTreeSet<u64>,
+    pub history_hash: u64,
+    pub trace: Vec<String>,
+}
+
+fn finish(desc: Desc, ops: Vec<Op>, runner: Result<Runner<'_>, Finding>) -> RunResult {
+    match runner {
+        Ok(r) => RunResult {
+            ops,
+            findings: r.findings,
+            counters: r.counters,
+            state_shapes: r.state_shapes,
+            decisions_nontrivial: r.decisions_nontrivial,
+            history_hash: r.history_hash,
+            trace: r.trace,
+            desc,
+        },
+        Err(f) => RunResult {
+            desc,
+            ops,
+            findings: vec![f],
+            counters: BTreeMap::new(),
+            state_shapes: BTreeSet::new(),
+            decisions_nontrivial: BTreeSet::new(),
+            history_hash: 0,
+            trace: Vec::new(),
+        },
+    }
+}
+
+/// Seeded run: descriptor, history plan and every operation are drawn from one PRNG
+pub fn run_seeded(seed: u64, keep_trace: bool) -> RunResult {
+    let mut rng = Rng::new(seed);
+    let desc = gen_desc(&mut rng);
+    let plan = gen_history_plan(&mut rng);
+    let mut ops: Vec<Op> = Vec::new();
+    let runner = match Runner::new(&desc, false) {
+        Ok(mut runner) => {
+            runner.keep_trace = keep_trace;
+            let mut next_id = 1u32;
+            for _ in 0..plan.n_ops {
+                let live = runner.live_ids();
+                let op = match rng.pick_weighted(&plan.mix) {
+                    1 if !live.is_empty() => Op::Release { grant: *rng.pick(&live) },
+                    2 => Op::Probe { entries: gen_request(&mut rng, &desc) },
+                    _ => {
+                        next_id += 1;
+                        Op::Grant {
+                            id: next_id - 1,
+                            entries: gen_request(&mut rng, &desc),
+                            bounce: rng.chance(1, 5),
+                        }
+                    }
+                };
+                runner.step(&op);
+                ops.push(op);
+                if runner.aborted {
+                    break;
+                }
+            }
+            if plan.drain && !runner.aborted {
+                let mut live = runner.live_ids();
+                rng.shuffle(&mut live);
+                for id in live {
+                    let op = Op::Release { grant: id };
+                    runner.step(&op);
+                    ops.push(op);
+                }
+            }
+            Ok(runner)
+        }
+        Err(f) => Err(f),
+    };
+    let d = desc.clone();
+    finish(d, ops, runner)
+}
+
+/// Executes an explicit operation list (no PRNG)
+pub fn run_ops(desc: &Desc, ops: &[Op], verbose: bool, keep_trace: bool) -> RunResult {
+    let runner = match Runner::new(desc, verbose) {
+        Ok(mut runner) => {
+            runner.keep_trace = keep_trace;
+            if verbose {
+                println!("descriptor: {}", desc.describe());
+            }
+            for op in ops {
+                runner.step(op);
+                if runner.aborted {
+                    break;
+                }
+            }
+            Ok(runner)
+        }
+        Err(f) => Err(f),
+    };
+    finish(desc.clone(), ops.to_vec(), runner)
+}
+
+/* ---------------------------------------------------------------------------------------- */
+/* Batch                                                                                    */
+/* ---------------------------------------------------------------------------------------- */
+
+struct RunSummary {
+    index: u64,
+    seed: u64,
+    history_hash: u64,
+    n_ops: usize,
+    nontrivial: bool,
+    /// (property, signature, message, op), first of each signature
+    findings: Vec<(String, String, String, usize)>,
+    counters: BTreeMap<String, u64>,
+    state_shapes: Vec<u64>,
+    decisions_nontrivial: Vec<u64>,
+}
+
+fn summarize(index: u64, seed: u64, r: RunResult) -> RunSummary {
+    let mut seen = BTreeSet::new();
+    let mut findings = Vec::new();
+    for f in &r.findings {
+        if seen.insert((f.property, f.signature())) {
+            findings.push((f.property.to_string(), f.signature(), f.message.clone(), f.op));
+        }
+    }
+    // non-trivial: at least one request was decided on a worker that already had a live
+    // allocation (a fragmented free state) and at least one grant happened
+    let nontrivial = r.counters.get("decisions_on_fragmented_worker").copied().unwrap_or(0) > 0
+        && r.counters.get("grants").copied().unwrap_or(0) > 0;
+    RunSummary {
+        index,
+        seed,
+        history_hash: r.history_hash,
+        n_ops: r.ops.len(),
+        nontrivial,
+        findings,
+        counters: r.counters,
+        state_shapes: r.state_shapes.into_iter().collect(),
+        decisions_nontrivial: r.decisions_nontrivial.into_iter().collect(),
+    }
+}
+
+#[derive(Serialize, Deserialize)]
+struct ReplayFile {
+    engine: String,
+    property: String,
+    seed: u64,
+    signature: String,
+    message: String,
+    descriptor: Desc,
+    /// the same, human readable
+    descriptor_text: String,
+    ops: Vec<Op>,
+    ops_text: Vec<String>,
+    minimised: bool,
+    original_ops: usize,
+}
+
+/// Property under which a finding counts when `property` is being checked
+fn effective_property<'a>(finding_property: &'a str, checked: &'a str) -> &'a str {
+    if finding_property == "PANIC" { checked } else { finding_property }
+}
+
+fn fires(desc: &Desc, ops: &[Op], checked: &str, target_sig: &str) -> Option<(String, usize)> {
+    let r = run_ops(desc, ops, false, false);
+    r.findings
+        .iter()
+        .find(|f| effective_property(f.property, checked) == checked && f.signature() == target_sig)
+        .map(|f| (f.message.clone(), f.op))
+}
+
+fn sig_tag(s: &str) -> String {
+    let t: String = s
+        .chars()
+        .map(|c| if c.is_ascii_alphanumeric() || c == '-' { c } else { '_' })
+        .collect();
+    t[..t.len().min(70)].to_string()
+}
+
+fn report_violation(args: &CheckArgs, property: &str, first: &RunSummary, sig: &str) -> Result<(PathBuf, String), String> {
+    let r = run_seeded(first.seed, false);
+    if r.history_hash != first.history_hash {
+        return Err("re-execution of the seed produced a different history".into());
+    }
+    let Some((_, first_op)) = fires(&r.desc, &r.ops, property, sig) else {
+        return Err("the recorded operation list does not reproduce the violation".into());
+    };
+    let (desc, ops, stats) = shrink::minimise(&r.desc, &r.ops, first_op, SHRINK_TRIES, &mut |d, o| {
+        fires(d, o, property, sig).is_some()
+    });
+    let (desc, ops, message, minimised) = match fires(&desc, &ops, property, sig) {
+        Some((m, _)) => {
+            let minimised = stats.ops_to < stats.ops_from || desc != r.desc;
+            (desc, ops, m, minimised)
+        }
+        None => {
+            let (m, _) = fires(&r.desc, &r.ops, property, sig).unwrap();
+            (r.desc.clone(), r.ops.clone(), m, false)
+        }
+    };
+    let file = ReplayFile {
+        engine: "alloc".into(),
+        property: property.to_string(),
+        seed: first.seed,
+        signature: format!("{property} {sig}"),
+        message: message.clone(),
+        descriptor_text: desc.describe(),
+        descriptor: desc,
+        ops_text: ops.iter().map(describe_op).collect(),
+        ops,
+        minimised,
+        original_ops: r.ops.len(),
+    };
+    let dir = args.verif_dir.join("replays");
+    std::fs::create_dir_all(&dir).map_err(|e| e.to_string())?;
+    let path = dir.join(format!("{property}-{}-{}.json", first.seed, sig_tag(sig)));
+    std::fs::write(&path, serde_json::to_string_pretty(&file).unwrap()).map_err(|e| e.to_string())?;
+    // replay in a fresh process: must fail identically
+    let exe = std::env::current_exe().map_err(|e| e.to_string())?;
+    let out = std::process::Command::new(exe)
+        .arg("replay")
+        .arg(&path)
+        .output()
+        .map_err(|e| e.to_string())?;
+    if out.status.code() != Some(1) {
+        return Err(format!(
+            "fresh-process replay of {} did not reproduce the violation (exit {:?})",
+            path.display(),
+            out.status.code()
+        ));
+    }
+    Ok((path, message))
+}
+
+fn sample_case(seed: u64) -> serde_json::Value {
+    let r = run_seeded(seed, true);
+    serde_json::json!({
+        "seed": seed,
+        "descriptor": r.desc.describe(),
+        "operations": r.ops.len(),
+        "trace": r.trace.iter().take(80).collect::<Vec<_>>(),
+    })
+}
+
+/// Runs the check of `args.property`; returns the process exit code (0 / 1 / 2).
+pub fn check(args: &CheckArgs) -> i32 {
+    let property = args.property.as_str();
+    if !PROPERTIES.contains(&property) {
+        eprintln!("engine alloc does not decide {property}");
+        return 2;
+    }
+    let start = Instant::now();
+    tako::verif::set_sim_clock(true);
+    let thorough = args.tier == "thorough";
+    let total = args
+        .runs_override
+        .unwrap_or(if thorough { QUICK_RUNS * THOROUGH_FACTOR } else { QUICK_RUNS });
+    let jobs = args.jobs.max(1).min(total.max(1)) as usize;
+
+    // ---- runs, spread over threads; results are merged in run-index order
+    let next = AtomicU64::new(0);
+    let done = AtomicBool::new(false);
+    // per thread: (run index + 1, start in ms since `start`)
+    let current: Vec<(AtomicU64, AtomicU64)> =
+        (0..jobs).map(|_| (AtomicU64::new(0), AtomicU64::new(0))).collect();
+    let mut runs: Vec<RunSummary> = Vec::with_capacity(total as usize);
+    std::thread::scope(|scope| {
+        let mut handles = Vec::new();
+        for t in 0..jobs {
+            let next = &next;
+            let current = &current;
+            let seed0 = args.seed;
+            handles.push(scope.spawn(move || {
+                tako::verif::set_sim_clock(true);
+                let mut out = Vec::new();
+                loop {
+                    let i = next.fetch_add(1, Ordering::Relaxed);
+                    if i >= total {
+                        break;
+                    }
+                    current[t].1.store(start.elapsed().as_millis() as u64, Ordering::Relaxed);
+                    current[t].0.store(i + 1, Ordering::Relaxed);
+                    let seed = run_seed_for(seed0, property, i);
+                    out.push(summarize(i, seed, run_seeded(seed, false)));
+                    current[t].0.store(0, Ordering::Relaxed);
+                }
+                out
+            }));
+        }
+        // watchdog: an endless loop inside the allocator would otherwise hang the check
+        let watchdog = scope.spawn(|| {
+            while !done.load(Ordering::Relaxed) {
+                std::thread::sleep(std::time::Duration::from_millis(200));
+                let now = start.elapsed().as_millis() as u64;
+                for c in &current {
+                    let i = c.0.load(Ordering::Relaxed);
+                    let since = c.1.load(Ordering::Relaxed);
+                    if i > 0 && now.saturating_sub(since) > RUN_TIMEOUT_S * 1000 {
+                        eprintln!(
+                            "HARNESS-ERROR: run {} (seed {}) did not finish within {RUN_TIMEOUT_S} s: endless loop in the allocator? (re-run: hqsim check --property {property} --runs {} --jobs 1)",
+                            i - 1,
+                            run_seed_for(args.seed, property, i - 1),
+                            i
+                        );
+                        std::process::exit(2);
+                    }
+                }
+            }
+        });
+        for h in handles {
+            match h.join() {
+                Ok(v) => runs.extend(v),
+                Err(_) => {
+                    eprintln!("HARNESS-ERROR: a worker thread of the alloc engine panicked");
+                    std::process::exit(2);
+                }
+            }
+        }
+        done.store(true, Ordering::Relaxed);
+        let _ = watchdog.join();
+    });
+    runs.sort_by_key(|r| r.index);
+    let run_wall = start.elapsed().as_secs_f64();
+
+    // ---- verdict
+    let known = load_known_findings(&args.verif_dir.join("known_findings.txt"));
+    let mut harness_errors = 0u64;
+    let mut by_sig: BTreeMap<String, (u64, usize, String)> = BTreeMap::new();
+    let mut other_props: BTreeMap<String, u64> = BTreeMap::new();
+    for (ri, r) in runs.iter().enumerate() {
+        for (p, sig, msg, _op) in &r.findings {
+            if p == "HARNESS" {
+                harness_errors += 1;
+                if harness_errors <= 5 {
+                    eprintln!("HARNESS-ERROR: {sig}: {msg} (run {} seed {})", r.index, r.seed);
+                }
+            } else if effective_property(p, property) == property {
+                by_sig.entry(sig.clone()).or_insert((0, ri, msg.clone())).0 += 1;
+            } else {
+                *other_props.entry(format!("{p} {sig}")).or_default() += 1;
+            }
+        }
+    }
+    let mut exit = 0;
+    let mut known_hit: Vec<String> = Vec::new();
+    let mut violations: Vec<serde_json::Value> = Vec::new();
+    for (sig, (count, first_idx, msg)) in &by_sig {
+        let first = &runs[*first_idx];
+        if let Some(k) = known.iter().find(|k| k.property == property && k.signature == *sig) {
+            println!(
+                "KNOWN-FINDING: property={property} signature={sig} {} ({count} runs, e.g. seed {})",
+                k.text, first.seed
+            );
+            known_hit.push(sig.clone());
+            continue;
+        }
+        match report_violation(args, property, first, sig) {
+            Ok((path, message)) => {
+                println!("VIOLATION property={property} replay={}", path.display());
+                println!("  signature={sig} runs={count} first_seed={} : {message}", first.seed);
+                violations.push(serde_json::json!({"signature": sig, "runs": count, "seed": first.seed, "replay": path, "message": message}));
+                exit = 1;
+            }
+            Err(e) => {
+                eprintln!("HARNESS-ERROR: cannot reproduce {property} {sig} from seed {}: {e} ({msg})", first.seed);
+                harness_errors += 1;
+            }
+        }
+    }
+
+    // ---- evidence
+    let mut counters: BTreeMap<String, u64> = BTreeMap::new();
+    let mut shapes: BTreeSet<u64> = BTreeSet::new();
+    let mut decisions: BTreeSet<u64> = BTreeSet::new();
+    for r in &runs {
+        for (k, v) in &r.counters {
+            *counters.entry(k.clone()).or_default() += v;
+        }
+        shapes.extend(r.state_shapes.iter());
+        decisions.extend(r.decisions_nontrivial.iter());
+    }
+    let get = |k: &str| counters.get(k).copied().unwrap_or(0);
+    let nontrivial: Vec<&RunSummary> = runs.iter().filter(|r| r.nontrivial).collect();
+    let distinct_nontrivial: BTreeSet<u64> = nontrivial.iter().map(|r| r.history_hash).collect();
+    let samples: Vec<serde_json::Value> = nontrivial
+        .iter()
+        .filter(|r| r.n_ops <= 14)
+        .take(3)
+        .map(|r| sample_case(r.seed))
+        .collect();
+    let mut per_policy: BTreeMap<String, serde_json::Value> = BTreeMap::new();
+    for p in ["compact", "tight", "scatter", "compact!", "tight!", "all"] {
+        per_policy.insert(
+            p.to_string(),
+            serde_json::json!({"granted": get(&format!("granted_{p}")), "refused": get(&format!("refused_{p}"))}),
+        );
+    }
+    let probes: BTreeMap<String, u64> = counters
+        .iter()
+        .filter(|(k, _)| {
+            k.starts_with("probe_") || k.starts_with("ref_") || k.starts_with("narrowed_") || k.ends_with("_checked")
+                || k.starts_with("decisions") || ["bounces", "returns_to_idle_worker", "state_checks"].contains(&k.as_str())
+        })
+        .map(|(k, v)| (k.clone(), *v))
+        .collect();
+    let wall = start.elapsed().as_secs_f64();
+    let rule = match property {
+        "C16" => RULE_C16,
+        _ => RULE_C04,
+    };
+    let evidence = serde_json::json!({
+        "property_id": property,
+        "tier": if thorough { "thorough" } else { "quick" },
+        "seed": args.seed,
+        "level": "exploration",
+        "coverage": {
+            "evaluations": runs.len(),
+            "distinct_nontrivial": distinct_nontrivial.len(),
+            "rule": rule,
+            "samples": samples,
+            "nontrivial_runs": nontrivial.len(),
+            "runs_per_hour": (runs.len() as f64 / run_wall.max(1e-9) * 3600.0) as u64,
+            "seeds": {"verif_seed": args.seed, "first_run_seed": runs.first().map(|r| r.seed), "last_run_seed": runs.last().map(|r| r.seed)},
+            "operations_total": runs.iter().map(|r| r.n_ops as u64).sum::<u64>(),
+            "grants": get("grants"),
+            "refusals": get("refusals"),
+            "releases": get("releases"),
+            "admission_probes": get("probes"),
+            "decisions": get("decisions"),
+            "distinct_nontrivial_decisions": decisions.len(),
+            "distinct_nontrivial_decisions_measure": "distinct (descriptor, free-state shape, request) decided while at least one allocation was live",
+            "per_policy_entries": per_policy,
+            "faults_injected": {},
+            "probes": probes,
+            "distinct_states": shapes.len(),
+            "distinct_states_measure": "distinct free-state shapes seen before a decision: per resource and group (number of completely free indices, multiset of free fractions of partially used indices) or the free amount of a sum resource",
+            "components": {
+                "real": [
+                    "tako ResourceAllocator (try_allocate, is_enabled, release_allocation, has_resources_for_request, claim_resources, strict-policy objective cache)",
+                    "ResourcePool (Indices/Groups/Sum: claim_*_from_groups, take_fraction_index_or_split, release_allocation)",
+                    "ConciseFreeResources (admission mirror: add/remove/amount_max_alloc)",
+                    "group_solver + LpSolver + HiGHS (single-threaded via set_sim_clock)",
+                    "ResourceDescriptor::validate, ResourceDescriptorKind constructors, ResourceLabelMap, ResourceIdMap, ResourceRequest::new"
+                ],
+                "stub": [
+                    "no worker around the allocator: grants and releases are called directly (the worker-level paths - task start/end, prefill hand-over - are exercised by the cluster engine's C04 oracle)",
+                    "requests are built with SimAllocator::make_request instead of arriving from the server"
+                ]
+            },
+            "known_findings_hit": known_hit,
+            "findings_of_other_properties_seen": other_props,
+            "violations_detail": violations,
+        },
+        "assumptions": [
+            "no concurrency inside the allocator (it is single-threaded in the worker); the contribution of the simulation is the history dependence of the free state",
+            "the snapshot hook (verif_snapshot) reports the pools and the concise mirror faithfully; everything else is recomputed by the harness from the descriptor and the set of live allocations",
+            "release semantics (debug assertions off) as in the shipped binary; ResourceAllocator::validate is never called",
+            "the formatting of HQ_RESOURCE_VALUES_* / CUDA_VISIBLE_DEVICES from an Allocation (program.rs) is a pure function and not covered",
+            "no faults are injected: the allocator has no environment that can fail",
+            "sampling, not proof: a clean batch is evidence for the explored descriptors and histories only"
+        ],
+        "wall_s": wall,
+        "violations": violations.len(),
+    });
+    write_json(&args.verif_dir.join("evidence").join(format!("{property}.json")), &evidence);
+    println!(
+        "{property}: {} runs ({} non-trivial, {} distinct), {} ops, grants={} refusals={} releases={} probes={}, {} free-state shapes, {} distinct non-trivial decisions, ref agree/disagree/narrowed={}/{}/{}, {:.1}s wall; violations={} known={} harness_errors={}",
+        runs.len(),
+        nontrivial.len(),
+        distinct_nontrivial.len(),
+        runs.iter().map(|r| r.n_ops as u64).sum::<u64>(),
+        get("grants"),
+        get("refusals"),
+        get("releases"),
+        get("probes"),
+        shapes.len(),
+        decisions.len(),
+        get("ref_agree_grant") + get("ref_agree_refuse"),
+        get("ref_disagree"),
+        get("ref_narrowed_strict_coupled"),
+        wall,
+        violations.len(),
+        known_hit.len(),
+        harness_errors
+    );
+    if harness_errors > 0 {
+        return 2;
+    }
+    exit
+}
+
+const RULE_C16: &str = "one run = seeded worker descriptor (cpus + 0-2 further resources; list / range / groups of 1-4 groups x 1-4 indices, uneven sizes, 1 run in 8 with up to 8 indices per group; sum resources with fractional sizes; optional coupling weights between groups, light 32-256 or heavy >1024) + seeded history of 5-40 operations grant(request) / release(live allocation) / probe(request) (+ optional final drain), requests of 1-3 entries over every policy (compact, tight, scatter, compact!, tight!, all), amounts on the grid {0.25,0.5,0.75,1,1.25,..} plus odd fractions (0.0001, 0.3333, 0.9999) up to slightly more than the resource. At every probe/grant the answer of the real allocator is compared with a brute-force reference over group subsets evaluated on the pre-grant pool snapshot. non-trivial = at least one request was decided while another allocation was live and at least one grant happened; distinct = distinct hash of (descriptor, operations, answers, granted indices). Narrowings: (1) the min-group clause for an entry is skipped when the coupling weights touching it sum to more than 1000 (a group costs 1024 in the optimisation, the documentation only promises a 'preference'); (2) for strict policies on a coupled descriptor the refusal/grant is compared with the documented 'optimal configuration wrt. coupling weights' only for integer amounts and light weights, otherwise only exclusivity/conservation/admission agreement are checked; (3) how the indices are distributed inside the chosen groups (compact 'evenly', tight 'pack the first group'), and which of several equally small group sets is taken, is not checked; (4) a refusal of a request with a strict entry that is explained only by a non-strict compact/tight entry missing its idle-worker minimum is reported under its own signature (the documentation does not say the strict yardstick spreads).";
+
+const RULE_C04: &str = "one run = seeded worker descriptor (list / range with offset / groups up to 4x4 (1 run in 8 up to 8 indices per group) / sum with fractional size, optional coupling) + seeded history of 5-40 grant/release/probe operations (+ optional final drain) on the real allocator, requests of 1-3 entries, every policy, integer and fractional amounts, `all`. After every operation the pool snapshot is compared with the set of live allocations kept by the harness: per allocation exactly the requested amount (whole pool for all), whole indices + at most one fractional index holding the fractional part and listed last, indices and group labels of the descriptor; per index sum of held fractions <= 1; sum resources never overcommitted; per index and per pool free + held == total; concise admission mirror == pools; a refusal leaves the state alone; 1 grant in 5 is released at once and the snapshot compared with the one before the grant; whenever the last allocation is released the snapshot equals the initial one. non-trivial = at least one request was decided while another allocation was live and at least one grant happened; distinct = distinct hash of (descriptor, operations, answers, granted indices).";
+
 /// Replays a replay file written by this engine; exit code as for `check`.
-pub fn replay(_path: &Path, _verbose: bool) -> i32 {
-    eprintln!("engine alloc: not implemented yet");
-    2
+pub fn replay(path: &Path, verbose: bool) -> i32 {
+    tako::verif::set_sim_clock(true);
+    let text = match std::fs::read_to_string(path) {
+        Ok(t) => t,
+        Err(e) => {
+            eprintln!("cannot read {}: {e}", path.display());
+            return 2;
+        }
+    };
+    let file: ReplayFile = match serde_json::from_str(&text) {
+        Ok(f) => f,
+        Err(e) => {
+            eprintln!("cannot parse {}: {e}", path.display());
+            return 2;
+        }
+    };
+    let r = run_ops(&file.descriptor, &file.ops, verbose, false);
+    let mut hit: Option<&Finding> = None;
+    let mut harness = false;
+    for f in &r.findings {
+        let p = effective_property(f.property, &file.property);
+        println!("FINDING {} {} op={} : {}", p, f.signature(), f.op, f.message);
+        if f.property == "HARNESS" {
+            harness = true;
+        }
+        if hit.is_none() && format!("{} {}", p, f.signature()) == file.signature {
+            hit = Some(f);
+        }
+    }
+    if harness {
+        eprintln!("HARNESS-ERROR: the replay file cannot be executed");
+        return 2;
+    }
+    match hit {
+        Some(f) => {
+            println!("VIOLATION property={} replay={}", file.property, path.display());
+            println!("  {}", f.message);
+            1
+        }
+        None => {
+            println!("replay of {} did not reproduce {}", path.display(), file.signature);
+            0
+        }
+    }
 }
